@@ -433,7 +433,7 @@ pub fn mutation_class(m: &str) -> String {
 }
 
 pub fn run(c: &mut Ctx) {
-    c.note("rule", json!("every Deserialize type of both crates and wrappers around the public element codecs; a second serde format (JSON, no size hints): every array node with elements appended / removed, objects with fields removed; per honest bincode encoding: every length prefix <- {0,n-1,n+1,n+1 with a valid extra element,n+2,2n,2^24,2^32,2^40 with 64 elements,2^60,2^64-1}, every atom <- invalid/boundary encodings and flag patterns, truncation at and inside every atom, extension, random strings, random tails, bit flips. One case = one decoded input; distinct = distinct (type, mutation name), random inputs by content."));
+    c.note("rule", json!("every Deserialize type of both crates and wrappers around the public element codecs; a second serde format (JSON, no size hints): every array node with elements appended / removed, objects with fields removed; per honest bincode encoding: every length prefix <- {0,n-1,n+1,n+1 with a valid extra element,n+2,2n,2^24,2^32,2^40 with 64 elements,2^60,2^64-1}, every atom <- invalid/boundary encodings and flag patterns, truncation at and inside every atom, extension, random strings, random tails, bit flips. One case = one decoded input; distinct = distinct (type, mutation name), random inputs by content. Added later: a JSON pass, ChannelId::from_str on hostile strings including multi-byte characters at every alignment, wide instantiations (N=13, 40 scalars) in the quick tier. Length prefixes whose product with an element size wraps."));
     let m = match types::default_merchant(c) {
         Ok(m) => m,
         Err(e) => return c.inconclusive(&e),
